@@ -141,6 +141,51 @@ pub fn label_programs() -> Vec<(String, AProg)> {
     v
 }
 
+/// Scale family ("BIG"): the same grammar beyond the small scope, sized to cross representation thresholds (2^5, 2^6, 2^8, 2^12, 2^15.., 2^16)
+/// in every count the assembler and the debug tables keep: label length, labels, blocks, statements, lines (with the gap styles), initialized
+/// runs, relocation entries.
+pub fn big_programs() -> Vec<(String, AProg)> {
+    let mut v: Vec<(String, AProg)> = vec![];
+    // long label names: a definition, uses through every kind of operand in other letter case, and a second label equal to its first n-1 characters
+    for n in [31usize, 32, 33, 34, 63, 64, 65, 66, 255, 256, 257, 300, 1000] {
+        let name: String = (0..n).map(|k| if k == 0 { 'L' } else { [b'a', b'B', b'c', b'_', b'9'][k % 5] as char }).collect();
+        let prefix = name[..n - 1].to_string();
+        v.push((format!("label of {n} bytes"), block(0x3000, vec![
+            lst(&name, Nuc::Add(0, 0, RoI::Reg(0))), lst(&prefix, Nuc::Halt), st(Nuc::Ld(1, lab(&name.to_ascii_lowercase()))), st(Nuc::Br(7, lab(&name.to_ascii_uppercase()))),
+            st(Nuc::Fill(FillOp::Lab(name.clone()))), st(Nuc::Fill(FillOp::Lab(prefix.to_ascii_lowercase()))), st(Nuc::Lea(2, lab(&prefix)))])));
+        v.push((format!("label of {n} bytes declared twice"), block(0x3000, vec![lst(&name, Nuc::Halt), st(Nuc::Halt), lst(&name.to_ascii_lowercase(), Nuc::Halt)])));
+        v.push((format!("undefined label of {n} bytes whose prefix is defined"), block(0x3000, vec![lst(&prefix, Nuc::Halt), st(Nuc::Ld(0, lab(&name)))])));
+    }
+    // many one-word blocks, each with a label that the next block refers to
+    for nb in [20u32, 255, 256, 257, 700, 1400] {
+        let mut p = vec![];
+        for k in 0..nb { p.extend(block(0x3000 + 2 * k as u16, vec![lst(&format!("B{k}"), Nuc::Fill(FillOp::Lab(format!("b{}", (k + 1) % nb))))])); }
+        v.push((format!("{nb} one-word blocks"), p));
+    }
+    // many labelled statements in one block (labels, statements and lines past 255 / 256 / 4096)
+    for ns in [255u32, 256, 257, 300, 4097] {
+        let body: Vec<AStmt> = (0..ns).map(|k| lst(&format!("S{k}"), if k % 3 == 0 { Nuc::Fill(FillOp::Lab(format!("s{}", (k * 7 + 1) % ns))) } else if k % 3 == 1 { Nuc::Add((k % 8) as u8, 1, RoI::Imm((k % 16) as i16 - 8)) } else { Nuc::Fill(FillOp::Num(k as u16)) })).collect();
+        v.push((format!("{ns} labelled statements"), block(0x3000, body)));
+    }
+    // long initialized runs (string literals) followed by another statement, and big reserved regions
+    for n in [255usize, 256, 4095, 4096, 4097, 5000, 32767, 32768] {
+        v.push((format!("stringz of {n} characters"), block(0x3000, vec![lst("S", Nuc::Stringz("ab~".repeat(n / 3 + 1)[..n].to_string())), lst("AFTER", Nuc::Fill(FillOp::Lab("s".into())))])));
+    }
+    // strings of characters that are printed as two-byte escapes (the printed literal is twice as long as the string)
+    for n in [32767usize, 32768, 40000] { v.push((format!("stringz of {n} tabs"), block(0x3000, vec![lst("S", Nuc::Stringz("\t".repeat(n))), st(Nuc::Halt)]))); }
+    for n in [0x5555u16, 0x5556, 0x8000, 0xCDFF] { v.push((format!("blkw x{n:04X} then a word"), block(0x3000, vec![st(Nuc::Blkw(n)), lst("AFTER", Nuc::Fill(FillOp::Num(0xABCD)))]))); }
+    // many labels stacked on one statement
+    for n in [16usize, 64, 300] { v.push((format!("{n} labels on one statement"), block(0x3000, vec![AStmt { labels: (0..n).map(|k| format!("T{k}")).collect(), nuc: Nuc::Halt }, st(Nuc::Br(7, lab(&format!("t{}", n - 1))))]))); }
+    // many uses of externals: declarations before and after the uses
+    for (ne, nf, after) in [(1usize, 64usize, true), (1, 65, true), (1, 65, false), (6, 8, true), (3, 40, false), (2, 300, true)] {
+        let mut body = vec![]; for f in 0..nf { for e in 0..ne { body.push(st(Nuc::Fill(FillOp::Lab(format!("{}{e}", if f % 2 == 0 { "EXT" } else { "ext" }))))); } }
+        let decls: Vec<AStmt> = (0..ne).map(|e| st(Nuc::External(format!("Ext{e}")))).collect();
+        let mut p = vec![]; if !after { p.extend(decls.clone()); } p.extend(block(0x5000, body)); if after { p.extend(decls); }
+        v.push((format!("{ne} externals x {nf} fills, declared {}", if after { "after" } else { "before" }), p));
+    }
+    v
+}
+
 // ------------------------------------------------------------------ family registry (index -> program), shared by run and replay
 
 pub struct Families {
@@ -153,6 +198,7 @@ pub struct Families {
     pub f1: Vec<(String, AProg)>,
     /// programs whose labels contain non-ASCII letters (spelled identically everywhere) and their single faults
     pub uni: Vec<(String, AProg)>,
+    pub big: Vec<(String, AProg)>,
 }
 impl Families {
     pub fn new() -> Self {
@@ -165,14 +211,14 @@ impl Families {
         ];
         let mut uni = vec![];
         for (k, b) in uni_base.iter().enumerate() { uni.push((format!("unicode {k}"), b.clone())); for (d, p) in faults(b) { uni.push((format!("unicode {k}: {d}"), p)); } }
-        Families { uni, l1: single_statements(), lim: offset_limit_programs(), blk: block_layouts(), base, fence: fence_programs(), lab: label_programs(), f1 }
+        Families { uni, big: big_programs(), l1: single_statements(), lim: offset_limit_programs(), blk: block_layouts(), base, fence: fence_programs(), lab: label_programs(), f1 }
     }
     pub fn len(&self, fam: &str) -> u64 {
         match fam {
             "L1" => (self.l1.len() * ORIGINS.len()) as u64,
             "S1" => SeqSpace::new(1).count() * 3, "S2" => SeqSpace::new(2).count() * 3, "S3" => SeqSpace::new(3).count() * 3,
             "LIM" => self.lim.len() as u64, "BLK" => self.blk.len() as u64, "BASE" => self.base.len() as u64,
-            "FENCE" => self.fence.len() as u64, "LAB" => self.lab.len() as u64, "F1" => self.f1.len() as u64, "UNI" => self.uni.len() as u64,
+            "FENCE" => self.fence.len() as u64, "LAB" => self.lab.len() as u64, "F1" => self.f1.len() as u64, "UNI" => self.uni.len() as u64, "BIG" => self.big.len() as u64,
             "F2" => (self.f1.len() as u64) * 400,
             "STR" => 1 + 10 + 100 + 1000 + 10000,
             _ => 0,
@@ -189,6 +235,7 @@ impl Families {
             "LAB" => self.lab.get(i as usize).map(|x| x.1.clone()),
             "F1" => self.f1.get(i as usize).map(|x| x.1.clone()),
             "UNI" => self.uni.get(i as usize).map(|x| x.1.clone()),
+            "BIG" => self.big.get(i as usize).map(|x| x.1.clone()),
             "STR" => {
                 const A: [char; 10] = ['a', ' ', '\t', '\n', '\r', '\0', '"', '\\', ';', 'é'];
                 let (len, mut k) = if i < 1 { (0, 0) } else if i < 11 { (1, i - 1) } else if i < 111 { (2, i - 11) } else if i < 1111 { (3, i - 111) } else { (4, i - 1111) };
